@@ -169,6 +169,10 @@ def judge(case, acc, ctx):
     if custom:
         cfg = "".join(f'SB_CONFIG_SUIT_MPI_{key}_VENDOR_NAME="{names[r][0]}"\nSB_CONFIG_SUIT_MPI_{key}_CLASS_NAME="{names[r][1]}"\n'
                       for key, r in (("ROOT", "root"), ("APP_LOCAL_1", "application"), ("RAD_LOCAL_1", "radio")))
+        # commented-out entries assign nothing
+        cfg = "# Automatically generated file; DO NOT EDIT.\n\n" + cfg + '# SB_CONFIG_SUIT_MPI_ROOT_VENDOR_NAME="old.example"\n#SB_CONFIG_SUIT_MPI_APP_LOCAL_1_CLASS_NAME="old_app"\n'
+    else:
+        cfg = '# SB_CONFIG_SUIT_MPI_ROOT_VENDOR_NAME="disabled.example"\n# SB_CONFIG_SUIT_MPI_ROOT_CLASS_NAME="disabled_root"\n# SB_CONFIG_SUIT_MPI_GENERATE is not set\n'
     with open(art + "sys.config", "w", encoding="utf-8") as fh:
         fh.write(cfg)
     with open(art + "empty.config", "w") as fh:
